@@ -1,7 +1,7 @@
 SPECIFICATION Spec
 CONSTANTS
   Mode = "lattice"
-  Fmts = {"elf", "pe"}
+  Fmts = {"elf"}
   K1 = 4
   K2 = 0
   K3 = 0
